@@ -420,6 +420,21 @@ pub fn run(op: &str, args: &[&str]) -> Option<String> {
             })
         }
         "sch-types" => Some(types()),
+        // sch-capture: two items on which the name of a variant's generated inner struct (`<Enum><Variant>`) captures
+        // something else (findings F23, F24): NAME|CONTAINER|BYTES-OF-A-VALUE;;...
+        "sch-capture" => {
+            use capture::*;
+            let l = CapList::Cons(1, Box::new(CapList::Cons(2, Box::new(CapList::Nil))));
+            let m = CapMsg::Ack(vec![CapMsgAck { id: 7 }]);
+            let hx = |b: Vec<u8>| b.iter().map(|x| format!("{:02x}", x)).collect::<String>();
+            Some(format!(
+                "self-in-variant|{}|{};;payload-named-like-inner-struct|{}|{}",
+                dump_container(&BorshSchemaContainer::for_type::<CapList>()),
+                hx(borsh::to_vec(&l).ok()?),
+                dump_container(&BorshSchemaContainer::for_type::<CapMsg>()),
+                hx(borsh::to_vec(&m).ok()?)
+            ))
+        }
         // sch-deep WHICH N: a chain of N Tuple definitions t0 -> t1 -> ... -> tN (a Primitive), validated /
         // sized.  The chain is built here (as from_slice would build it from ~29 N bytes) so that the
         // input does not have to travel through stdin.  The traversals recurse once per link.
@@ -440,5 +455,26 @@ pub fn run(op: &str, args: &[&str]) -> Option<String> {
             })
         }
         _ => None,
+    }
+}
+
+/// items for `sch-capture`
+pub mod capture {
+    use borsh::{BorshSchema, BorshSerialize};
+    /// `Self` inside a variant: the derive copies the fields into `struct CapListCons(u8, Box<Self>)`
+    #[derive(BorshSerialize, BorshSchema)]
+    pub enum CapList {
+        Nil,
+        Cons(u8, Box<Self>),
+    }
+    /// a payload struct named `<Enum><Variant>`, a common naming convention
+    #[derive(BorshSerialize, BorshSchema)]
+    pub struct CapMsgAck {
+        pub id: u32,
+    }
+    #[derive(BorshSerialize, BorshSchema)]
+    pub enum CapMsg {
+        Ack(Vec<CapMsgAck>),
+        Nop,
     }
 }
